@@ -76,6 +76,12 @@ pub struct W4Cfg {
     /// still queued (as after a caught panic); it must not influence the next one
     #[serde(default)]
     pub abandoned_first: bool,
+    /// three-asset environments with ONE published level (MarketEnv<3, 1>: more assets than levels)
+    #[serde(default)]
+    pub small_levels: bool,
+    /// environment steps made before the simulation proper (the opening book rests; the env is not fresh)
+    #[serde(default)]
+    pub prestep: u8,
 }
 
 #[derive(Clone, Debug, Serialize, Deserialize, PartialEq)]
@@ -227,6 +233,8 @@ pub enum World {
     M1(Box<MarketEnv<1, 10>>),
     M2(Box<MarketEnv<2, 10>>),
     M3(Box<MarketEnv<3, 10>>),
+    /// three assets, ONE published level (more assets than levels)
+    M3S(Box<MarketEnv<3, 1>>),
 }
 
 macro_rules! with_world {
@@ -236,6 +244,7 @@ macro_rules! with_world {
             World::M1($e) => $body,
             World::M2($e) => $body,
             World::M3($e) => $body,
+            World::M3S($e) => $body,
         }
     };
 }
@@ -257,6 +266,7 @@ impl World {
             match cfg.assets {
                 1 => World::M1(Box::new(MarketEnv::<1, 10>::new(cfg.t0, [t[0]], cfg.step_size, cfg.trading0))),
                 2 => World::M2(Box::new(MarketEnv::<2, 10>::new(cfg.t0, [t[0], t[1]], cfg.step_size, cfg.trading0))),
+                _ if cfg.small_levels => World::M3S(Box::new(MarketEnv::<3, 1>::new(cfg.t0, [t[0], t[1], t[2]], cfg.step_size, cfg.trading0))),
                 _ => World::M3(Box::new(MarketEnv::<3, 10>::new(cfg.t0, [t[0], t[1], t[2]], cfg.step_size, cfg.trading0))),
             }
         }
@@ -298,6 +308,7 @@ impl World {
             World::M1(e) => e.get_market().get_order_book(a).mid_price(),
             World::M2(e) => e.get_market().get_order_book(a).mid_price(),
             World::M3(e) => e.get_market().get_order_book(a).mid_price(),
+            World::M3S(e) => e.get_market().get_order_book(a).mid_price(),
         }
     }
     pub fn queue(&self) -> Vec<Queued> {
@@ -320,6 +331,7 @@ impl World {
             World::M1(e) => e.verif_queued().iter().map(conv2).collect(),
             World::M2(e) => e.verif_queued().iter().map(conv2).collect(),
             World::M3(e) => e.verif_queued().iter().map(conv2).collect(),
+            World::M3S(e) => e.verif_queued().iter().map(conv2).collect(),
         }
     }
     pub fn digest(&self) -> u64 {
@@ -348,6 +360,10 @@ impl World {
                 market_sim_runner(e.as_mut(), &mut set, seed, n_steps, progress)
             }
             World::M3(e) => {
+                let mut set = make_mset(specs, ticks);
+                market_sim_runner(e.as_mut(), &mut set, seed, n_steps, progress)
+            }
+            World::M3S(e) => {
                 let mut set = make_mset(specs, ticks);
                 market_sim_runner(e.as_mut(), &mut set, seed, n_steps, progress)
             }
@@ -384,6 +400,13 @@ impl World {
                     e.step(rng);
                 }
             }
+            World::M3S(e) => {
+                let mut set = make_mset(specs, ticks);
+                for _ in 0..n_steps {
+                    MarketAgentSet::update(&mut set, e.as_mut(), rng);
+                    e.step(rng);
+                }
+            }
         }
     }
 }
@@ -407,6 +430,7 @@ impl Group {
             (Group::M(s), World::M1(e)) => MarketAgent::update(s, e.as_mut(), rng),
             (Group::M(s), World::M2(e)) => MarketAgent::update(s, e.as_mut(), rng),
             (Group::M(s), World::M3(e)) => MarketAgent::update(s, e.as_mut(), rng),
+            (Group::M(s), World::M3S(e)) => MarketAgent::update(s, e.as_mut(), rng),
             _ => panic!("harness: agent group / world mismatch"),
         }
     }
@@ -415,6 +439,12 @@ impl Group {
 fn seed_world(w: &mut World, scn: &W4Scn) {
     for (a, bid, price, vol) in &scn.initial {
         let _ = w.place(*a, *bid, *vol, 7777, Some(*price));
+    }
+    // `prestep`: the opening book is made to rest by steps of its own before the simulation proper starts (the
+    // environment handed to the runner is then not a fresh one: its histories already hold entries)
+    for k in 0..scn.cfg.prestep {
+        let mut pre = SeamRng::passthrough(0x0BE9 + k as u64);
+        w.step(&mut pre);
     }
 }
 
